@@ -6,6 +6,7 @@ package decoder
 import (
 	"context"
 	"fmt"
+	"sort"
 
 	"github.com/hashicorp/hcl-lang/decoder/internal/schemahelper"
 	"github.com/hashicorp/hcl-lang/lang"
@@ -54,7 +55,7 @@ func (d *PathDecoder) completionAtPos(ctx context.Context, body *hclsyntax.Body,
 
 	filename := body.Range().Filename
 
-	for _, attr := range body.Attributes {
+	for _, attr := range attributesInSourceOrder(body.Attributes) {
 		if d.isPosInsideAttrExpr(attr, pos) {
 			if pos.Byte < attr.Expr.Range().Start.Byte && !isEmptyExpression(attr.Expr) {
 				// position is in front of the expression
@@ -160,6 +161,23 @@ func (d *PathDecoder) completionAtPos(ctx context.Context, body *hclsyntax.Body,
 	}
 
 	return d.bodySchemaCandidates(ctx, body, bodySchema, rng, rng), nil
+}
+
+// attributesInSourceOrder returns attributes in the order they were declared
+// such that any position-based lookup does not depend on map iteration order
+// (ranges of attributes may overlap in incomplete configuration).
+func attributesInSourceOrder(attrs hclsyntax.Attributes) []*hclsyntax.Attribute {
+	sorted := make([]*hclsyntax.Attribute, 0, len(attrs))
+	for _, attr := range attrs {
+		sorted = append(sorted, attr)
+	}
+	sort.Slice(sorted, func(i, j int) bool {
+		if sorted[i].SrcRange.Start.Byte != sorted[j].SrcRange.Start.Byte {
+			return sorted[i].SrcRange.Start.Byte < sorted[j].SrcRange.Start.Byte
+		}
+		return sorted[i].Name < sorted[j].Name
+	})
+	return sorted
 }
 
 func (d *PathDecoder) isPosInsideAttrExpr(attr *hclsyntax.Attribute, pos hcl.Pos) bool {
